@@ -18,6 +18,9 @@ import Rdm.Lemmas.HeurAspect
 import Rdm.Lemmas.HeurH12
 import Rdm.Lemmas.HeurH12Spec
 import Mathlib.Tactic.Linarith
+import Rdm.Lemmas.E2EMethods
+import Rdm.Lemmas.E2EMethodsLevels
+import Rdm.Lemmas.E2EMethodsExamples
 set_option linter.unusedSectionVars false
 set_option linter.unusedSimpArgs false
 namespace Rdm.Props.C12
@@ -584,6 +587,141 @@ example : Spec.C12.check [exA, exB, exD] [⟨exC, 1⟩, ⟨exK, 1⟩] [[("c", 3)
     (by with_unfolding_all rfl) (by with_unfolding_all rfl) (by with_unfolding_all rfl) (List.reverse_perm _)
     (by decide +kernel) (by decide) (by decide) (by decide)
 end Examples
+
+/-! ## end to end: whole requests (`decideWith` / `Rdm.decide`, Model/Decide.lean)
+
+  Whatever biases ran before — every request, every bias list, every stream function, no bounds —, the answer
+  of aspect elimination is `Evaluate` on the state that reached it (`resp.final`): alternatives ordered on the
+  stream `g seed` of the REQUEST's `randomSeed` iff the REQUEST says so, levels generated by the REQUEST's levels
+  function from the FINAL state.  `e2emAspEntries resp.result` reads the response back as the list `Evaluate`
+  returned (what `Spec.C12.check` is evaluated on).  Helper lemmas: Rdm/Lemmas/E2EMethods*.lean. -/
+
+/-- **the configuration in force**: no bias exchanges the method nor touches the levels function, `randomSeed` or
+    `randomAlternativesOrdering`, and of the levels parameters only the per-criterion entries of explicit
+    thresholds change (same coefficient numbers, same number of explicit levels: `e2emLvTag`) -/
+theorem decideWith_aspect_parameters (exp : α → α) (aspOrder : List (WCrit α) → List (WCrit α))
+    (req : Request α) (g : Int → Draws α) (resp : Response α) (h : decideWith exp aspOrder req g = .ok resp)
+    (fn : String) (seed : Int) (rnd : Bool) :
+    (∀ lv₀ w₀, req.mp = some (.aspect fn lv₀ seed w₀ rnd) →
+      ∃ lv w, resp.final.mp = .aspect fn lv seed w rnd ∧ e2emLvTag lv = e2emLvTag lv₀) ∧
+    (∀ lv w, resp.final.mp = .aspect fn lv seed w rnd →
+      ∃ lv₀ w₀, req.mp = some (.aspect fn lv₀ seed w₀ rnd) ∧ e2emLvTag lv = e2emLvTag lv₀) := by
+  constructor
+  · intro lv₀ w₀ hmp
+    obtain ⟨lv, w, _, hfin, hl, _⟩ := e2em_decideWith_aspect h hmp
+    exact ⟨lv, w, hfin, hl⟩
+  · intro lv w hfin
+    exact (e2em_decideWith_aspect_of_final h hfin).1
+
+/-- **the response IS the elimination procedure on the final state** (any number type, any examination
+    order): for a request with aspect-elimination parameters, if `MakeDecision` answers then the levels are
+    `aspectLevels` of the final state (C14), the considered alternatives of the final state are ordered on the
+    stream of the request's seed, the final weights zip to the final criteria, and `result` is `aspectCore` on
+    these — so every per-stage theorem above applies to `e2emAspEntries resp.result`.  Every level has a
+    threshold for every criterion of the final state (by construction of the registered sources). -/
+theorem decideWith_aspect_is_elimination (exp : α → α) (aspOrder : List (WCrit α) → List (WCrit α))
+    (req : Request α) (g : Int → Draws α) (resp : Response α) (fn : String) (lv₀ : Levels α) (seed : Int)
+    (w₀ : KMap α) (rnd : Bool) (h : decideWith exp aspOrder req g = .ok resp)
+    (hmp : req.mp = some (.aspect fn lv₀ seed w₀ rnd)) :
+    ∃ lv w lvl alts ds' wc,
+      resp.final.mp = .aspect fn lv seed w rnd ∧ e2emLvTag lv = e2emLvTag lv₀ ∧
+      aspectLevels resp.final = .ok lvl ∧
+      orderAlternatives rnd resp.final.co (g seed) = .ok (alts, ds') ∧ alts.Perm resp.final.co ∧
+      zipWithWeights resp.final.crit w = .ok wc ∧
+      aspectCore ((aspOrder wc).map (·.crit)) lvl alts = .ok (e2emAspEntries resp.result) ∧
+      resp.result = (e2emAspEntries resp.result).map (Linked.mapEv .asp) ∧
+      (∀ t ∈ lvl, ∀ c ∈ resp.final.crit, (t.get? c.id).isSome = true) := by
+  obtain ⟨lv, w, r, hfin, hl, hr, hres⟩ := e2em_decideWith_aspect h hmp
+  obtain ⟨lvl, hlv, hof, hr'⟩ := e2em_aspect_levels_used hfin hr
+  obtain ⟨alts, ds', wc, ha, hz, hcore⟩ := e2em_aspectEvaluateWith_ok hfin hr'
+  have hent : e2emAspEntries resp.result = r := by rw [hres, e2emAspEntries_map]
+  exact ⟨lv, w, lvl, alts, ds', wc, hfin, hl, hlv, ha, orderAlternatives_perm _ _ _ _ _ ha, hz,
+    by rw [hent]; exact hcore, by rw [hent]; exact hres, e2em_levelsOf_complete hof⟩
+
+/-- **`Spec.C12.check` accepts the response** (over `Rat`), the checker called as the driver op `check-c12`
+    calls it on the state that reached `Evaluate`: `alts` = the ordered considered alternatives of the final
+    state, `wc` = final criteria zipped with the final weights, `lvl` = the levels generated from the final
+    state — for ANY examination order `aspOrder wc` that is a permutation of `wc` in non-increasing weight.
+    The hypotheses of `model_output_passes_spec_for_order` are carried through, with two improvements:
+    distinctness of the considered ids is asked of `choseToMake`, and `hthr` (every level has a threshold for
+    every criterion) is no longer a hypothesis — levels that come from `aspectLevels` satisfy it. -/
+theorem decideWith_aspect_passes_spec_for_order (exp : Rat → Rat) (aspOrder : List (WCrit Rat) → List (WCrit Rat))
+    (req : Request Rat) (g : Int → Draws Rat) (resp : Response Rat)
+    (fn : String) (lv : Levels Rat) (seed : Int) (w : KMap Rat) (rnd : Bool)
+    (h : decideWith exp aspOrder req g = .ok resp) (hfin : resp.final.mp = .aspect fn lv seed w rnd)
+    (lvl : List (KMap Rat)) (hlv : aspectLevels resp.final = .ok lvl)
+    (alts : List (Alt Rat)) (ds' : Draws Rat)
+    (halts : orderAlternatives rnd resp.final.co (g seed) = .ok (alts, ds'))
+    (wc : List (WCrit Rat)) (hwc : zipWithWeights resp.final.crit w = .ok wc)
+    (hperm : (aspOrder wc).Perm wc) (hdesc : Spec.C12.descending (aspOrder wc) = true)
+    (hnd : req.chosen.Nodup) (hndc : (resp.final.crit.map (·.id)).Nodup) :
+    Spec.C12.check alts wc lvl (e2emAspEntries resp.result) = true := by
+  obtain ⟨_, r, hr, hres⟩ := e2em_decideWith_aspect_of_final h hfin
+  have hent : e2emAspEntries resp.result = r := by rw [hres, e2emAspEntries_map]
+  obtain ⟨lvl', hlv', hof, hr'⟩ := e2em_aspect_levels_used hfin hr
+  rw [hlv] at hlv'; cases hlv'
+  obtain ⟨hco, _⟩ := e2em_decideWith_co h
+  rw [hent]
+  exact model_output_passes_spec_for_order resp.final (g seed) ds' fn lv seed w rnd lvl aspOrder alts wc r hfin hr'
+    halts hwc hperm hdesc (by rw [hco]; exact hnd) hndc (e2em_levelsOf_complete hof)
+
+/-- **C12 for `Rdm.decide`** (`MakeDecision` with the registered generators read from a seed table and the
+    descending-weight examination order — the order `sort.Slice` produces for pairwise distinct weights): no
+    hypothesis on the examination order is left -/
+theorem decide_aspect_passes_spec (exp : Rat → Rat) (req : Request Rat) (seeds : Seeds Rat) (resp : Response Rat)
+    (fn : String) (lv : Levels Rat) (seed : Int) (w : KMap Rat) (rnd : Bool)
+    (h : Rdm.decide exp req seeds = .ok resp) (hfin : resp.final.mp = .aspect fn lv seed w rnd)
+    (lvl : List (KMap Rat)) (hlv : aspectLevels resp.final = .ok lvl)
+    (alts : List (Alt Rat)) (ds' : Draws Rat)
+    (halts : orderAlternatives rnd resp.final.co (genOf seeds seed) = .ok (alts, ds'))
+    (wc : List (WCrit Rat)) (hwc : zipWithWeights resp.final.crit w = .ok wc)
+    (hnd : req.chosen.Nodup) (hndc : (resp.final.crit.map (·.id)).Nodup) :
+    Spec.C12.check alts wc lvl (e2emAspEntries resp.result) = true :=
+  decideWith_aspect_passes_spec_for_order exp _ req _ resp fn lv seed w rnd h hfin lvl hlv alts ds' halts wc hwc
+    (sortCriteriaDesc_sorted wc).1 (heurH12_descending (sortCriteriaDesc_sorted wc).2) hnd hndc
+
+/-- … in one statement from the request: aspect-elimination parameters in the request, distinct `choseToMake`;
+    levels, ordered alternatives and weighted criteria exist (the model answered) and for them the checker
+    accepts as soon as the final criteria ids are distinct -/
+theorem decide_aspect_passes_spec_from_request (exp : Rat → Rat) (req : Request Rat) (seeds : Seeds Rat)
+    (resp : Response Rat) (fn : String) (lv₀ : Levels Rat) (seed : Int) (w₀ : KMap Rat) (rnd : Bool)
+    (h : Rdm.decide exp req seeds = .ok resp) (hmp : req.mp = some (.aspect fn lv₀ seed w₀ rnd))
+    (hnd : req.chosen.Nodup) :
+    ∃ lv w lvl alts ds' wc, resp.final.mp = .aspect fn lv seed w rnd ∧ e2emLvTag lv = e2emLvTag lv₀ ∧
+      aspectLevels resp.final = .ok lvl ∧
+      orderAlternatives rnd resp.final.co (genOf seeds seed) = .ok (alts, ds') ∧
+      zipWithWeights resp.final.crit w = .ok wc ∧
+      ((resp.final.crit.map (·.id)).Nodup → Spec.C12.check alts wc lvl (e2emAspEntries resp.result) = true) := by
+  obtain ⟨lv, w, lvl, alts, ds', wc, hfin, hl, hlv, ha, _, hz, _⟩ :=
+    decideWith_aspect_is_elimination exp _ req _ resp fn lv₀ seed w₀ rnd h hmp
+  exact ⟨lv, w, lvl, alts, ds', wc, hfin, hl, hlv, ha, hz, fun hndc =>
+    decide_aspect_passes_spec exp req seeds resp fn lv seed w rnd h hfin lvl hlv alts ds' ha wc hz hnd hndc⟩
+
+/-- the hypotheses are satisfiable: an aspect-elimination request (additive series 0, 1/4, 1/2, 3/4; weights
+    c1 > c0; a fatigue fired before and rewrote every value, so the levels are generated from the REWRITTEN
+    ranges) — the model answers and the checker accepts the response.  (The examination order is given as
+    `List.reverse` — the zipped criteria come in ascending weight — because `sortCriteriaDesc` is a merge sort,
+    which `decide +kernel` cannot evaluate; `exSort` above shows how a concrete sort is discharged.) -/
+example : ∃ resp alts wc lvl, decideWith id List.reverse e2emExAspect (genOf e2eExSeeds) = .ok resp ∧
+    alts.map (·.id) = ["c", "a", "b"] ∧ lvl.length = 4 ∧
+    Spec.C12.check alts wc lvl (e2emAspEntries resp.result) = true := by
+  have h := e2em_eq_ok_getD e2emNoResponse (x := decideWith id List.reverse e2emExAspect (genOf e2eExSeeds))
+    (by decide +kernel)
+  generalize hresp : e2emGetD e2emNoResponse (decideWith id List.reverse e2emExAspect (genOf e2eExSeeds)) = resp at h
+  obtain ⟨lv, w, hfin, _⟩ := (decideWith_aspect_parameters id _ _ _ resp h "idealAdditiveCoefficient" 11 false).1
+    _ _ rfl
+  have hw : w = e2emWeightsOf resp.final.mp := by rw [hfin]; rfl
+  subst hw
+  have hlv := e2em_eq_ok_getD [] (x := aspectLevels resp.final) (by subst hresp; decide +kernel)
+  have halts := e2em_eq_ok_getD ([], []) (x := orderAlternatives false resp.final.co (genOf e2eExSeeds 11))
+    (by subst hresp; decide +kernel)
+  have hz := e2em_eq_ok_getD [] (x := zipWithWeights resp.final.crit (e2emWeightsOf resp.final.mp))
+    (by subst hresp; decide +kernel)
+  refine ⟨resp, _, _, _, h, ?_, ?_, decideWith_aspect_passes_spec_for_order id _ _ _ resp _ lv 11 _ false h hfin _ hlv
+    _ _ halts _ hz (List.reverse_perm _) (by subst hresp; decide +kernel) (by decide)
+    (by subst hresp; decide +kernel)⟩
+  · subst hresp; decide +kernel
+  · subst hresp; decide +kernel
 
 /-- the constants and names this property depends on were re-read from the working tree on this run
     (none fell back to its pinned value because its declaration could not be located) -/
